@@ -37,7 +37,7 @@ def plan(tier, seed):
 
 def thresholds(tier):
   t = {"configs_completed": 100, "ops_replayed": 10000, "subword_ops": 500, "amo_ops": 200, "responses_checked": 10000,
-       "multiport_configs": 50, "rtl_configs": 30, "cl_configs": 30, "backpressure_configs": 30, "metamorphic_pairs": 8, "configs_with_ports_of_different_data_width": 20, "cl_memory_with_rtl_masters_configs": 30, "image_api_calls": 1000, "fl_configs": 20}
+       "multiport_configs": 50, "rtl_configs": 30, "cl_configs": 30, "backpressure_configs": 30, "metamorphic_pairs": 8, "configs_with_ports_of_different_data_width": 20, "cl_memory_with_rtl_masters_configs": 30, "image_api_calls": 1000, "fl_configs": 20, "configs_with_non_power_of_two_memory": 60}
   if tier == "thorough":
     t = {k: v * 20 for k, v in t.items()}
     t["image_api_calls"] = 3000           # a fixed number of calls per shard
@@ -414,6 +414,15 @@ def run_config(sh, rng, case, probe=None):
     if bp == "half": return [rng.getrandbits(1) for _ in range(64)]
     if bp == "bursty": return [0] * rng.randrange(3, 20) + [1] * rng.randrange(3, 20)
     return [1 if rng.random() < 0.15 else 0 for _ in range(64)] + [1]
+  global MEMSZ, BASE
+  MEMSZ, BASE = 1 << 14, 0x400
+  if probe is None and rng.random() < 0.5:
+    # memories whose size is not a power of two, the traffic anywhere in it (bottom, middle, right below the top)
+    MEMSZ = rng.choice([1100, 1200, 1500, 2000, 3000, 5000, 12000, 1 << 12, 1 << 13])
+    span = 4 * nwords + 24
+    BASE = rng.choice([8, 0x400 if MEMSZ >= 0x400 + span else 8, MEMSZ - span + 8 - (MEMSZ - span) % 4, 4 * rng.randrange(2, (MEMSZ - span) // 4)])
+    sh.count("configs_with_other_memory_size_or_base"); 
+    if MEMSZ & (MEMSZ - 1): sh.count("configs_with_non_power_of_two_memory")
   amo_p = rng.choice([0, 0.1, 0.3]) if probe != "F-M2" else 0.4
   nops = rng.randrange(30, 120 if sh.tier == "quick" else 300)
   dws = [32] * nports
@@ -422,7 +431,7 @@ def run_config(sh, rng, case, probe=None):
   streams = [gen_stream(rng, nops, nwords, amo_p, subword_amo, dws[p]) for p in range(nports)]
   cfg = {"model": model, "dws": dws, "nports": nports, "latency": latency, "stall": stall, "nwords": nwords, "bp": bp,
          "patterns": [pat() for _ in range(nports)], "gaps": [gen_gaps(rng, nops) for _ in range(nports)],
-         "bp_factor": {"none": 1, "half": 3, "bursty": 4, "rare": 10}[bp], "subword_amo": subword_amo, "case": case}
+         "bp_factor": {"none": 1, "half": 3, "bursty": 4, "rare": 10}[bp], "subword_amo": subword_amo, "case": case, "mem_nbytes": MEMSZ, "base": BASE}
   try:
     ev, cyc, bound, err, image = simulate(sh, cfg, streams)
   except Exception as e:
